@@ -39,6 +39,7 @@ struct World
 {
     igris::dlist_base *queue[kQueues];
     igris::safe_queue<long> *sq;
+    igris::event *ev[kEvents];
     std::vector<TCtx> ctx;
     std::vector<std::vector<igris::dlist_node *>> model; // per queue: nodes in order
     std::map<igris::dlist_node *, int> owner;             // waiter node -> thread
@@ -221,6 +222,24 @@ void run_op(int tid, const Op &o)
     case O_YIELD:
         yield_point();
         break;
+    case O_EV_WAIT:
+        if (c.depth != 0) // as for O_WAIT
+            break;
+        if (o.prio)
+        {
+            // time does not pass in the model: the only way out of a timed wait is the signal
+            bool got = w.ev[o.q]->wait(std::chrono::hours(1));
+            if (!got)
+                latch("event_timed_wait_false", fmt("T%d: event%d.wait(1 h) returned false", tid, o.q));
+        }
+        else
+            w.ev[o.q]->wait();
+        if (!w.ev[o.q]->isset())
+            latch("event_wait_returned_unsignalled", fmt("T%d returned from event%d.wait although the event was never signalled", tid, o.q));
+        break;
+    case O_EV_SIGNAL:
+        w.ev[o.q]->signal();
+        break;
     default:
         break;
     }
@@ -245,7 +264,39 @@ ExecResult execute(const Program &prog, const std::vector<int> &prefix, std::fun
     W = &w;
     for (int i = 0; i < kQueues; i++)
         w.queue[i] = new igris::dlist_base;
-    w.sq = new igris::safe_queue<long>;
+    {
+        long qinit = -1;
+        for (auto &th : prog)
+            for (auto &o : th)
+                if (o.k == O_QINIT)
+                    qinit = o.val;
+        // items 901.. belong to a producer of their own
+        switch (qinit)
+        {
+        case -1:
+            w.sq = new igris::safe_queue<long>;
+            break;
+        case 0:
+            w.sq = new igris::safe_queue<long>(std::initializer_list<long>{});
+            break;
+        case 1:
+            w.sq = new igris::safe_queue<long>{901};
+            break;
+        case 2:
+            w.sq = new igris::safe_queue<long>{901, 902};
+            break;
+        case 3:
+            w.sq = new igris::safe_queue<long>{901, 902, 903};
+            break;
+        default:
+            w.sq = new igris::safe_queue<long>{901, 902, 903, 904};
+            qinit = 4;
+        }
+        for (long k = 0; k < qinit; k++)
+            w.pushed.push_back(901 + k);
+    }
+    for (int i = 0; i < kEvents; i++)
+        w.ev[i] = new igris::event;
     w.model.assign(kQueues, {});
     w.ctx.assign(prog.size() + 64, TCtx{}); // + clean-up threads
     s.prefix = prefix;
@@ -274,12 +325,20 @@ ExecResult execute(const Program &prog, const std::vector<int> &prefix, std::fun
         for (int q = 0; q < kQueues; q++)
             if (!w.queue[q]->empty())
                 queued = true;
-        if (!queued)
+        // a thread parked on an event nobody has signalled yet is legal as well; one parked on a signalled event is not
+        bool ev_pending = false;
+        for (size_t t = 0; t < prog.size(); t++)
+            if (w.ctx[t].cur == O_EV_WAIT && !w.ev[w.ctx[t].q]->isset())
+                ev_pending = true;
+        if (!queued && !ev_pending)
             break;
         int ct = (int)s.threads.size();
-        sched::add_thread([ct]() {
+        sched::add_thread([ct, ev_pending]() {
             for (int q = 0; q < kQueues; q++)
                 run_op(ct, Op{O_UNWAIT_ALL, q, 0, -1});
+            if (ev_pending)
+                for (int e = 0; e < kEvents; e++)
+                    run_op(ct, Op{O_EV_SIGNAL, e, 0, 0});
         });
         done = sched::run_until_quiescent();
     }
@@ -312,6 +371,10 @@ ExecResult execute(const Program &prog, const std::vector<int> &prefix, std::fun
         for (int i = 0; i < kQueues; i++)
             if (!w.queue[i]->empty())
                 s.latch("wait_queue_not_empty", fmt("q%d still has entries after every thread finished", i));
+        // the queue's semaphore is its lock: never two threads between its wait and its post
+        for (auto &kv : s.sems)
+            if ((const char *)kv.first >= (const char *)w.sq && (const char *)kv.first < (const char *)w.sq + sizeof *w.sq && kv.second.max_inside > 1)
+                s.latch("safe_queue_two_threads_inside", fmt("%d threads were inside safe_queue operations at the same time (its semaphore let them all in)", kv.second.max_inside));
     }
     r.sig = s.violation_sig;
     r.msg = s.violation_msg;
@@ -320,6 +383,8 @@ ExecResult execute(const Program &prog, const std::vector<int> &prefix, std::fun
         for (int i = 0; i < kQueues; i++)
             delete w.queue[i];
         delete w.sq;
+        for (int i = 0; i < kEvents; i++)
+            delete w.ev[i];
     }
     W = nullptr;
     return r;
@@ -400,6 +465,46 @@ void t_event_timed(Src &s, Case &c)
     }
 }
 
+// ------------------------------------------------------------------ event programs
+void t_sched_events(Src &s, Case &c)
+{
+    Program p = gen_event_program(s);
+    c.log("program: %s", program_str(p).c_str());
+    Src *src = &s;
+    auto fallback = [src](int nopts, bool can_continue) -> int {
+        if (can_continue && src->below(4) != 0)
+            return 0;
+        return (int)src->below((uint64_t)nopts);
+    };
+    int spurious = (int)src->below(3);
+    ExecResult r = execute(p, {}, fallback, INT_MAX, spurious);
+    c.log(" schedule: %s(%d pre-emptions)", trace_str(r.trace).c_str(), r.preemptions);
+    int waiters = 0, timed = 0, signallers = 0, qusers = 0;
+    for (auto &th : p)
+    {
+        bool wv = false, sg = false, qu = false;
+        for (auto &o : th)
+        {
+            if (o.k == O_EV_WAIT)
+                wv = true, timed += o.prio;
+            if (o.k == O_EV_SIGNAL)
+                sg = true;
+            if (o.k == O_PUSH || o.k == O_TRYPOP)
+                qu = true;
+        }
+        waiters += wv, signallers += sg, qusers += qu;
+    }
+    c.nontrivial = ((waiters >= 1 && signallers >= 1) || qusers >= 2) && r.preemptions >= 1;
+    if (timed)
+        c.label("timed_wait");
+    if (qusers >= 2)
+        c.label("queue_shared");
+    for (auto &o : p[0])
+        if (o.k == O_QINIT)
+            c.label(o.val >= 2 ? "queue_starts_with>=2" : o.val == 1 ? "queue_starts_with_1" : "queue_starts_empty");
+    VP_CHECK(r.sig.empty(), r.sig, "%s", r.msg.c_str());
+}
+
 // -------------------------------------------------------------- exhaustive target
 std::vector<Program> small_programs()
 {
@@ -428,6 +533,11 @@ std::vector<Program> small_programs()
         // the C++ entry points: nested igris::syslock_guard objects and igris::syslock against a plain locker
         {{Op{O_LOCK, 0, 2, 0}, Op{O_LOCK, 0, 2, 0}, unlock, yld, unlock}, {lock, unlock}},
         {{Op{O_LOCK, 0, 1, 0}, Op{O_LOCK, 0, 2, 0}, unlock, unlock}, {Op{O_LOCK, 0, 2, 0}, yld, unlock}},
+        // igris::event: untimed and timed waiters against one signaller; a queue that starts with two items
+        {{Op{O_EV_WAIT, 0, 0, 0}}, {Op{O_EV_SIGNAL, 0, 0, 0}}},
+        {{Op{O_EV_WAIT, 0, 1, 0}}, {Op{O_EV_SIGNAL, 0, 0, 0}}},
+        {{Op{O_EV_WAIT, 0, 1, 0}}, {Op{O_EV_WAIT, 0, 0, 0}}, {yld, Op{O_EV_SIGNAL, 0, 0, 0}}},
+        {{Op{O_QINIT, 0, 0, 2}, pop, pop}, {push(101), push(102)}, {push(201)}},
     };
 }
 unsigned __int128 enum_size(int) { return small_programs().size(); }
@@ -494,6 +604,12 @@ VP_TARGET("sched", t_sched,
           "waiter returns iff an unwait removed it and with that call's future, unwait_one removes at most one, nothing is "
           "notified after its owner destroyed it, every thread finishes once everything still queued is woken (no lost wake-up / "
           "deadlock), safe_queue pops = pushes with per-producer order; non-trivial = >= 2 threads use the same object and >= 1 pre-emption");
+VP_TARGET("sched_events", t_sched_events,
+          "random programs of 2-4 threads x <= 5 operations over two igris::event objects (wait(), wait(1 h), signal()), a safe_queue built from an initializer list of 0..4 items "
+          "(push, size()+pop() by one consumer) and the system lock, under the controlled scheduler (time does not pass: a timed wait ends only by the signal): a waiter "
+          "returns only from a signalled event, wait(duration) returns true, every thread finishes once the events still waited for are signalled (a waiter left parked on a "
+          "signalled event = lost wake-up), never two threads inside safe_queue operations at once, pops = initial items + pushes with per-producer order; non-trivial = a "
+          "waiter and a signaller (or two queue users) and >= 1 pre-emption");
 VP_TARGET("event_timed", t_event_timed,
           "igris::event::wait(duration), single-threaded: a signalled event reports true for timeouts -1000, -1, 0, 1, 3 ms, an unsignalled one false; non-trivial = signalled with a "
           "timeout <= 0");
